@@ -371,11 +371,11 @@ func isDecl(s ast.Statement) bool {
 // hintClass maps the triage hints onto the recorded known-finding classes (each a narrow
 // shape of text that xjs accepts although it is not valid JavaScript)
 var hintClass = map[string]string{
-	"[x++ / x-- used as callee, object or index base] ":                                                  "postfix-as-callee",
-	"[declaration as the body of if/while/for] ":                                                         "declaration-in-single-statement",
-	"[decimal literal with a leading zero and a fraction/exponent] ":                                     "leading-zero-float",
-	"[function parameter that is not an identifier] ":                                                    "non-identifier-parameter",
-	"[digits immediately followed by '.': a number for JavaScript, a member access for xjs] ":            "number-dot-member",
+	"[x++ / x-- used as callee, object or index base] ":                                                                         "postfix-as-callee",
+	"[declaration as the body of if/while/for] ":                                                                                "declaration-in-single-statement",
+	"[decimal literal with a leading zero and a fraction/exponent] ":                                                            "leading-zero-float",
+	"[function parameter that is not an identifier] ":                                                                           "non-identifier-parameter",
+	"[digits immediately followed by '.': a number for JavaScript, a member access for xjs] ":                                   "number-dot-member",
 	"[line break before a backtick string: JavaScript continues the expression (tagged template), xjs starts a new statement] ": "newline-before-backtick",
 }
 
